@@ -66,6 +66,17 @@ class Machine:
     def snap(self):
         return [snapshot(x, self.dim) for x in self.r]
 
+    def typed(self, q, ntype):
+        """the number q = <<num, den>> in the type the caller chooses: a float (default), a Python int, an integer or float array per dimension"""
+        v = q[0] / q[1]
+        if q[1] != 1 or ntype in (None, 'float'):
+            return np.array([v] * self.dim) if ntype == 'floatarray' else v
+        if ntype == 'int':
+            return int(q[0])
+        if ntype == 'intarray':
+            return np.array([int(q[0])] * self.dim)
+        return np.array([v] * self.dim)
+
     def apply(self, op, args):
         ev = {'op': op, 'args': dict(args), 'raised': False}
         r = self.r
@@ -74,9 +85,9 @@ class Machine:
                 if op == 'scale_range':
                     r[0].scale_range((args['lo'][0] / args['lo'][1], args['hi'][0] / args['hi'][1]), override_scaling=args['override'])
                 elif op == 'scale_factor':
-                    r[0].scale_factor(args['f'][0] / args['f'][1], override_scaling=args['override'])
+                    r[0].scale_factor(self.typed(args['f'], args.get('ntype')), override_scaling=args['override'])
                 elif op == 'shift':
-                    r[0].shift_value(args['t'][0] / args['t'][1], override_scaling=args['override'])
+                    r[0].shift_value(self.typed(args['t'], args.get('ntype')), override_scaling=args['override'])
                 elif op == 'revert':
                     r[0].revert_scaling()
                 elif op == 'split_pieces':
@@ -108,6 +119,8 @@ class Machine:
                     r[0].move_boundaries_to_front()
                 elif op == 'swap':
                     r[0], r[1] = r[1], r[0]
+                elif op == 'copy':
+                    r[1] = r[0].copy()      # the library's own copy(): from now on the two data sets must be independent of each other
         except impl.Timeout:
             raise
         except Exception as ex:
@@ -217,7 +230,7 @@ def random_trace(rng, nsteps):
     script = []
     for _ in range(nsteps):
         n1 = m.r[0].get_length()
-        ops = ['split_pieces', 'split_without_labels', 'remove', 'concat', 'swap', 'shuffle']
+        ops = ['split_pieces', 'split_without_labels', 'remove', 'concat', 'swap', 'shuffle', 'copy']
         if n1 > 0:
             ops += ['scale_range', 'scale_range', 'scale_factor', 'shift', 'move_boundaries']
             if m.r[0].is_scaled():
@@ -230,9 +243,9 @@ def random_trace(rng, nsteps):
             lo, hi = rng.choice([([0, 1], [1, 1]), ([0, 1], [2, 1]), ([1, 1], [3, 1]), ([-1, 1], [1, 1])])
             args = {'lo': lo, 'hi': hi, 'override': rng.random() < 0.3}
         elif op == 'scale_factor':
-            args = {'f': rng.choice([[2, 1], [1, 2], [-1, 1], [3, 1]]), 'override': rng.random() < 0.3}
+            args = {'f': rng.choice([[2, 1], [1, 2], [-1, 1], [3, 1]]), 'override': rng.random() < 0.3, 'ntype': rng.choice(['float', 'float', 'int', 'intarray', 'floatarray'])}
         elif op == 'shift':
-            args = {'t': rng.choice([[1, 1], [-1, 1], [1, 2]]), 'override': rng.random() < 0.3}
+            args = {'t': rng.choice([[1, 1], [-1, 1], [1, 2]]), 'override': rng.random() < 0.3, 'ntype': rng.choice(['float', 'float', 'int', 'intarray', 'floatarray'])}
         elif op == 'split_pieces':
             args = {'k': rng.randint(0, n1)}
         elif op == 'remove':
@@ -279,8 +292,12 @@ def conclude(rep, traces):
     rep.cov['states'] += st
     rep.cov['transitions'] += trn
     rep.cov['traces_validated_against_impl'] += len(traces)
+    ndrift = {}
     for tr, v in zip(traces, verdicts):
         for step, clause in v:
+            if clause.startswith('I_'):
+                ndrift[clause] = ndrift.get(clause, 0) + 1
+                continue
             ev = tr['events'][step - 1]
             hist = [e['op'] for e in tr['events'][1:step]]
             sig = {'op': ev['op'], 'exception': ev.get('_exc', '').split(':')[0], 'after_split': any(h.startswith('split') or h == 'remove' for h in hist[:-1]),
@@ -290,6 +307,9 @@ def conclude(rep, traces):
             rep.violation(clause, sig, {'dim': tr['dim'], 'ops': [[e['op'], e['args']] for e in tr['events'][1:step]], 'init': tr['events'][0]['regs'],
                                         'failing_event': ev, 'script': tr.get('_script')},
                           what='%s after %s %s' % (ev['op'], hist[:-1][-4:], ev.get('_exc', '')))
+    for cl, k in sorted(ndrift.items()):
+        rep.drift('%s failed on %d recorded steps (a data set the operation does not work on was re-ordered through arrays it shares with a copy; '
+                  'its labelled samples and attributes are unchanged)' % (cl, k))
     rep.cov['rule'] = ('edge replay: every edge of the TLC graph of DataSet.tla executed on real DataSet objects (path from the initial state); random: seeded '
                        'operation sequences on 1-3 dimensional data with ties, unlabelled samples, single-sample and empty pieces; distinct by '
                        '(source state, action) / script; non-trivial = not a register swap')
